@@ -103,6 +103,10 @@ def gen_content(r, maxlen=30, allow_bytes=True):
             out.append(bytes(b for b in (r.randint(0, 255) for _ in range(k)) if b != 10) + b"\n")
         elif x < 0.2:
             out.append(b"line with \r cr and trailing space \n")
+        elif x < 0.205:
+            out.append(b"crlf line\r\n")
+        elif x < 0.207:
+            out.append(b"L" * r.choice([8191, 8192, 8193, 20000, 70000]) + b"\n")   # longer than an I/O buffer
         else:
             out.append(VOCAB[r.randrange(v)])
     if out and r.random() < 0.12:
